@@ -863,7 +863,12 @@ pub fn check(case: &Case, res: &RunResult, status: &str) -> Vec<(String, String)
     }
   }
   if status.starts_with("panic:") {
-    let pend1 = ops.iter().find(|o| o.ret.is_none() && o.fut.is_none());
+    // the never-returned op of the thread that panicked (status = panic:<tid>:<msg>), else the first one
+    let ptid = status.splitn(3, ':').nth(1).and_then(|t| t.parse::<usize>().ok());
+    let pend1 = ops
+      .iter()
+      .find(|o| o.ret.is_none() && o.fut.is_none() && Some(o.tid) == ptid)
+      .or_else(|| ops.iter().find(|o| o.ret.is_none() && o.fut.is_none()));
     let site = pend1.map(|o| o.form.clone()).unwrap_or_else(|| "teardown".into());
     let fl = pend1.map(|o| o.sfl.as_str()).unwrap_or(fl);
     let msg = status.splitn(3, ':').nth(2).unwrap_or("");
